@@ -1,6 +1,7 @@
 """Minimal numpy stand-in whose array cells may be symbolic scalars."""
 from __future__ import annotations
 
+import builtins as _b
 import math as _math
 
 from . import engine as E
@@ -112,7 +113,7 @@ class ndarray:
             return ndarray(self._d[k])
         if isinstance(k, (list, ndarray)) or hasattr(k, "_vals"):
             kk = list(k._vals) if hasattr(k, "_vals") else list(k)
-            if kk and all(isinstance(x, (bool, E.SBool)) for x in kk):
+            if kk and _b.all(isinstance(x, (bool, E.SBool)) for x in kk):
                 return ndarray([v for v, m in zip(self._d, kk) if m])
             return ndarray([self._d[_idx(i)] for i in kk])
         return self._d[_idx(k)]
@@ -330,13 +331,13 @@ def unique(x, axis=None, return_index=False, return_counts=False):
         if not rows:
             return ndarray([])
         from .pdcore import all_concrete
-        if all(all_concrete(r) for r in rows):
+        if _b.all(all_concrete(r) for r in rows):
             order = sort_positions([[r[j] for r in rows] for j in range(len(rows[0]))], stable=True)
         else:
             order = range(len(rows))     # distinct rows in first-occurrence order (row order not modelled)
         out = []
         for i in order:
-            if any(bool(all_(ndarray([E.seq(a, b) for a, b in zip(o, rows[i])]))) for o in out):
+            if _b.any(bool(all_(ndarray([E.seq(a, b) for a, b in zip(o, rows[i])]))) for o in out):
                 continue
             out.append(rows[i])
         return ndarray(out)
@@ -348,6 +349,65 @@ def unique(x, axis=None, return_index=False, return_counts=False):
             continue
         out.append(c[i])
     return ndarray(out)
+
+
+def argsort(x, kind=None, **kw):
+    from .sympd import sort_positions
+    return ndarray(sort_positions([_cells(x)], True, stable=kind in ("stable", "mergesort")))
+
+
+def sort(x, kind=None, **kw):
+    c = _cells(x)
+    return ndarray([c[i] for i in argsort(x, kind=kind)._d])
+
+
+def arange(*a, dtype=None):
+    return ndarray(list(range(*a)))
+
+
+def concatenate(arrs, axis=0):
+    out = []
+    for a in arrs:
+        out.extend(_cells(a))
+    return ndarray(out)
+
+
+def sum(x, axis=None):  # noqa: A001
+    return _fold(_cells(x), lambda a, b: a + b, 0)
+
+
+def max(x, axis=None):  # noqa: A001
+    return _fold(_cells(x), E.smax, None)
+
+
+def min(x, axis=None):  # noqa: A001
+    return _fold(_cells(x), E.smin, None)
+
+
+def abs(x):  # noqa: A001
+    c = _cells(x)
+    if c is None:
+        return x if E.is_nan(x) else x.__abs__()
+    return _wrap_like(x, [v if E.is_nan(v) else v.__abs__() for v in c])
+
+
+absolute = abs
+
+
+def round(x, decimals=0):  # noqa: A001
+    c = _cells(x)
+    if c is None:
+        return E.sround(x, decimals)
+    return _wrap_like(x, [v if E.is_nan(v) else E.sround(v, decimals) for v in c])
+
+
+def searchsorted(a, v, side="left"):
+    raise E.Unsupported("np.searchsorted")
+
+
+def diff(x, n=1):
+    c = _cells(x)
+    return ndarray([c[i + 1] - c[i] for i in range(len(c) - 1)])
 
 
 def ceil(x):
